@@ -247,8 +247,70 @@ func cryptoStub(in *Interp, fn *ssa.Function, pkg, name string) StubFn {
 			}
 		}
 	}
+	if pkg == "bytes" && name == "Equal" && rn == nil {
+		return func(in *Interp, fn *ssa.Function, a []Val) Val {
+			x, y := a[0].(SliceV), a[1].(SliceV)
+			if x.Len != y.Len {
+				return BoolConst(false)
+			}
+			conj := []*Term{}
+			for i := 0; i < x.Len; i++ {
+				conj = append(conj, in.s.Eq(in.sliceGet(x, i).(*Term), in.sliceGet(y, i).(*Term)))
+			}
+			return in.s.And(conj...)
+		}
+	}
 	if !isEccPkg(pkg) {
 		return nil
+	}
+	// ---- MPC ceremony utilities: recorded predicate atoms -------------------------------
+	if strings.HasSuffix(pkg, "/mpcsetup") {
+		switch name {
+		case "Verify":
+			return func(in *Interp, fn *ssa.Function, a []Val) Val {
+				args := []Val{a[0], a[1], a[2]}
+				reps := a[3].(SliceV)
+				for i := 0; i < reps.Len; i++ {
+					vu := in.sliceGet(reps, i).(*StructV)
+					args = append(args, vu.F[0], vu.F[1])
+				}
+				res := in.errOrNil("UpdateProof.Verify")
+				in.atoms = append(in.atoms, Atom{Name: "UpdateProof.Verify", Vals: args, OK: res.(IfaceV).T == nil})
+				return res
+			}
+		case "SameRatioMany":
+			return func(in *Interp, fn *ssa.Function, a []Val) Val {
+				var args []Val
+				sl := a[0].(SliceV)
+				for i := 0; i < sl.Len; i++ {
+					args = append(args, in.sliceGet(sl, i))
+				}
+				res := in.errOrNil("SameRatioMany")
+				in.atoms = append(in.atoms, Atom{Name: "SameRatioMany", Vals: args, OK: res.(IfaceV).T == nil})
+				return res
+			}
+		case "BeaconContributions":
+			return func(in *Interp, fn *ssa.Function, a []Val) Val {
+				cnt := in.needInt(a[3].(*Term), "beacon count")
+				et := fn.Signature.Results().At(0).Type().Underlying().(*types.Slice).Elem()
+				sl := in.makeSlice(et, cnt, cnt)
+				for i := 0; i < cnt; i++ {
+					in.store(in.sliceElemPtr(sl, i), in.nondetOf(et, "beacon"))
+				}
+				in.atoms = append(in.atoms, Atom{Name: "BeaconContributions", Vals: []Val{a[0], a[1], a[2]}, OK: true})
+				return sl
+			}
+		}
+	}
+	if rn == nil && name == "Generators" {
+		return func(in *Interp, fn *ssa.Function, a []Val) Val {
+			res := fn.Signature.Results()
+			tv := make(TupleV, res.Len())
+			for i := range tv {
+				tv[i] = in.nondetOf(res.At(i).Type(), "generator")
+			}
+			return tv
+		}
 	}
 	// ---- KZG: folding and batched verification (length contracts from gnark-crypto) -------
 	if strings.HasSuffix(pkg, "/kzg") && rn == nil {
